@@ -1,4 +1,4 @@
 import GopModel.Driver.Loop
 import GopModel.Driver.Mini
 open GopModel.Driver
-def main : IO Unit := runDriver (dispatchWith [("mini", handleMini), ("minispec", handleMiniSpec), ("minigo", handleMiniGo)])
+def main : IO Unit := runDriver (dispatchWith [("mini", handleMini), ("minilow", handleMiniLow), ("minic", handleMiniC), ("minispec", handleMiniSpec), ("minigo", handleMiniGo)])
